@@ -257,4 +257,189 @@ theorem tls12_connection_full (H : Crypto.Prims) (hH : H.Lawful) (P : Prims) (L 
     rw [g2, ← hexp true]
     rfl
 
+/-! ### from the described capture to the output file -/
+
+/-- whatever else the run hands to the writer — before and after the block of the session of interest — is also taken by
+    the write loop (`Props.C01File2.OthersFit` for the items of the read loop under the run's `-c`) -/
+def OthersFitC (mask : Quic.Dissect.MaskFn) (H : Crypto.Prims) (P : Cipher.Prims) (args : Args)
+    (keyFile : Option Keylog.Str) (cap : List CapEv) (blk : List Pipeline.OutPkt) : Prop :=
+  ∀ out pre post, framesFrom mask H P freshState args (fileKeysOf keyFile) (itemsFromC args.checksumTest 0 cap)
+      (capInfo cap) = .ok out → out = pre ++ blk ++ post → ∀ q ∈ pre ++ post, WritesOk q
+
+/-- **The file layers around one session, without the restrictions.** A capture described from the sender's side
+    (`DescribedX`), any container variant, any options: if THE session object of the flow exports `frames` (addressed)
+    reassembling to `(pc, psv)`, and the write loop takes what is handed to it, the output file `Exact`ly contains that
+    conversation. -/
+theorem capture_exact_glue (mask : Quic.Dissect.MaskFn) (H : Crypto.Prims) (P : Prims)
+    (fl : Flow) (hne : clientEp fl ≠ serverEp fl) (evs : List CEv) (args : Args)
+    (hdesc : DescribedX fl args.checksumTest evs)
+    (hnot1 : ∀ e ∈ evs.map CEv.cap, Ingest.isMinusOne e.t = false)
+    (cv : Spec.Containers.Variant) (cevs : List Spec.Containers.Ev) (hcwf : cv.WF cevs)
+    (hitems : cevs.filterMap (Spec.Containers.scale cv) = (evs.map CEv.cap).map CapEv.item)
+    (keyFile : Option Keylog.Str)
+    (pm : List (Int × Int)) (ports : List Int)
+    (hpm : Options.getPortMap Options.Src.bare args.mArg = .ok pm)
+    (hports : Options.serverPorts Options.Src.builtin Options.Src.pDefault args.pArg = .ok ports)
+    (hsp : ports.contains (fl.serverPort : Int) = true) (hcp : ports.contains (fl.clientPort : Int) = false)
+    (p0 : Pkt) (rest : List Pkt) (hfp : flowPkts fl 0 evs = p0 :: rest)
+    (pc psv : Bytes)
+    (hconn : ∃ frames, Pipeline.connOut H P (capInfo (evs.map CEv.cap))
+        (sessionOf (evs.map CEv.cap) (optsOf args ports pm) p0 rest) ((fileKeysOf keyFile).getD [])
+          = some (frames.map (Pipeline.addressed (optsOf args ports pm) (sessionOf (evs.map CEv.cap) (optsOf args ports pm) p0 rest))) ∧
+        Spec.reassemble frames = some (pc, psv))
+    (hcport : fl.clientPort < 65536) (hsport : fl.serverPort < 65536) (hpmv : ∀ kv ∈ pm, kv.2.toNat < 65536)
+    (hbytes : pc.length + psv.length + 1 < 2 ^ 32)
+    (hrec : RecordsFit H P (capInfo (evs.map CEv.cap)) (sessionOf (evs.map CEv.cap) (optsOf args ports pm) p0 rest)
+      ((fileKeysOf keyFile).getD []))
+    (hus : ∀ e ∈ evs.map CEv.cap, e.us < 2 ^ 64)
+    (hothers : ∀ blk, Pipeline.connOut H P (capInfo (evs.map CEv.cap))
+        (sessionOf (evs.map CEv.cap) (optsOf args ports pm) p0 rest) ((fileKeysOf keyFile).getD []) = some blk →
+      OthersFitC mask H P args keyFile (evs.map CEv.cap) blk) :
+    ∃ f, exportFile mask H P args cv.isLegacy keyFile (Spec.Containers.encode cv cevs) = .file f ∧
+      Exact f (sessionOf (evs.map CEv.cap) (optsOf args ports pm) p0 rest) pc psv := by
+  have hread : Container.read cv.isLegacy (Spec.Containers.encode cv cevs) = .ok ((evs.map CEv.cap).map CapEv.item) := by
+    rw [Props.C12.reader_roundtrip cv cevs hcwf, hitems]
+  have hok := capOkC_of_describedX fl args.checksumTest evs hdesc hnot1
+  have hing := ingest_of_capture_c Keylog.srcHexClass args.checksumTest cv.isLegacy _ (evs.map CEv.cap) hread hok
+  obtain ⟨hF, hcand, hsrv, hcli, _⟩ :=
+    described_session_x fl hne evs (optsOf args ports pm) hdesc hsp hcp p0 rest hfp
+  obtain ⟨frames, hc, hre⟩ := hconn
+  have hfits := connOut_fits H P (capInfo (evs.map CEv.cap)) (sessionOf (evs.map CEv.cap) (optsOf args ports pm) p0 rest)
+    ((fileKeysOf keyFile).getD []) frames _ _ hc hre hrec hbytes
+    (by rw [hcli]; exact hcport)
+    (by rw [hsrv]; exact exported_lt _ _ _ hsport hpmv)
+    (capInfo_ts _ hus)
+  obtain ⟨f, hf, hrb⟩ := export_of_items_file mask H P args cv.isLegacy keyFile _ _ _ hing pm ports hpm hports
+    (refPkt fl) p0 rest hF hcand _
+    (by
+      show Pipeline.connOut H P (capInfo (evs.map CEv.cap)) (sessionOf (evs.map CEv.cap) (optsOf args ports pm) p0 rest) _ = _
+      rw [dsbKeys_itemsFromC, List.append_nil]; exact hc)
+    hfits (hothers _ hc)
+  exact ⟨f, hf, frames, hrb, hre⟩
+
+/-- **C01, TLS 1.3, from file to file, ANY options, IPv4 / IPv6 with extension headers, RFC terms.**
+    Beyond `Props.C01Rfc.tls13_capture_exact_rfc`: `-c` on or off (with it: valid TCP checksums on the connection's data
+    segments, anything on foreign frames), `-a` on or off (the conclusion is `expect13 args.metadata …`), IPv6 extension
+    headers in the connection's segments (`IsSegX`). -/
+theorem tls13_capture_exact_full (mask : Quic.Dissect.MaskFn) (H : Crypto.Prims) (hH : H.Lawful) (P : Prims) (L : SealLaws P)
+    -- the capture file: bytes written by the independent encoder in ANY container variant, holding the described packets;
+    -- the connection's segments over IPv4 or IPv6 WITH extension headers, with `-c` carrying valid TCP checksums
+    (fl : Flow) (hne : clientEp fl ≠ serverEp fl) (evs : List CEv) (args : Args)
+    (hdesc : DescribedX fl args.checksumTest evs)
+    (hnot1 : ∀ e ∈ evs.map CEv.cap, Ingest.isMinusOne e.t = false)
+    (cv : Spec.Containers.Variant) (cevs : List Spec.Containers.Ev) (hcwf : cv.WF cevs)
+    (hitems : cevs.filterMap (Spec.Containers.scale cv) = (evs.map CEv.cap).map CapEv.item)
+    -- the options: ANY `-a`, `-c`, `-m`, `-p`; the server port is a server port, the client port is not
+    (ls : List (C09Found.FLine × Bool)) (hls : ∀ x ∈ ls, x.1.WF)
+    (pm : List (Int × Int)) (ports : List Int)
+    (hpm : Options.getPortMap Options.Src.bare args.mArg = .ok pm)
+    (hports : Options.serverPorts Options.Src.builtin Options.Src.pDefault args.pArg = .ok ports)
+    (hsp : ports.contains (fl.serverPort : Int) = true) (hcp : ports.contains (fl.clientPort : Int) = false)
+    (p0 : Pkt) (rest : List Pkt) (hfp : flowPkts fl 0 evs = p0 :: rest)
+    -- the connection as sent: hellos per RFC 8446 §4.1
+    (t : Transcript) (hch : t.ch.WellFormed) (hsh : t.sh.WellFormed) (hrc : t.rvC.length = 2) (hrs : t.rvS.length = 2)
+    (hv : t.ver.length = 2) (hcomp : t.sh.compressionMethod = 0) (hneg : Negotiated t.rvS t.sh .tls13)
+    -- the negotiated suite: a code point the tool supports; `sp` is what its IANA name denotes; an AEAD suite
+    (haccept : CipherSuite.resolve (Bytes.beNat t.sh.cipherSuite) ≠ none)
+    (sp : SuiteSpec) (hsuite : suiteOfCode (Bytes.beNat t.sh.cipherSuite) = some sp)
+    (cls : CipherClass) (hcls : cls13 sp = some cls)
+    -- the four traffic secrets of the connection, and their lines in the key-log file
+    (chts shts cats sats : Bytes)
+    (hl1 : HasLine ls labelCHTS (Pipeline.natsOfBytes t.ch.random) (Pipeline.natsOfBytes chts))
+    (hl2 : HasLine ls labelSHTS (Pipeline.natsOfBytes t.ch.random) (Pipeline.natsOfBytes shts))
+    (hl3 : HasLine ls labelCTS0 (Pipeline.natsOfBytes t.ch.random) (Pipeline.natsOfBytes cats))
+    (hl4 : HasLine ls labelSTS0 (Pipeline.natsOfBytes t.ch.random) (Pipeline.natsOfBytes sats))
+    (ho1 : OnlySecret ls labelCHTS (Pipeline.natsOfBytes t.ch.random) (Pipeline.natsOfBytes chts))
+    (ho2 : OnlySecret ls labelSHTS (Pipeline.natsOfBytes t.ch.random) (Pipeline.natsOfBytes shts))
+    (ho3 : OnlySecret ls labelCTS0 (Pipeline.natsOfBytes t.ch.random) (Pipeline.natsOfBytes cats))
+    (ho4 : OnlySecret ls labelSTS0 (Pipeline.natsOfBytes t.ch.random) (Pipeline.natsOfBytes sats))
+    -- what follows the hellos: RFC 8446 records, protected with the keys of §7.3
+    (hsc : Script13 t.cEvs) (hss : Script13 t.sEvs)
+    (hokc : ∀ e ∈ t.cEvs, EvOk1 cls (sp.hash.suite H).outLen e)
+    (hoks : ∀ e ∈ t.sEvs, EvOk1 cls (sp.hash.suite H).outLen e)
+    (hwr : ∀ d, ∀ r ∈ t.records P L cls (snd13 H sp chts shts cats sats) d, WholeRecord r)
+    (hlen : budget13 t ≤ seqLimit)
+    -- the capture of the connection, sender side; causality on the released records as in the connection capstone
+    (hwires : WiresInOrder evs (t.stream P L cls (snd13 H sp chts shts cats sats)))
+    (hcausal : Causal13 (connRecs (capInfo (evs.map CEv.cap)) (sessionOf (evs.map CEv.cap) (optsOf args ports pm) p0 rest)))
+    -- what the write loop needs (each CAN fail on the real tool: see the header of `Props/C01File2`)
+    (hcport : fl.clientPort < 65536) (hsport : fl.serverPort < 65536) (hpmv : ∀ kv ∈ pm, kv.2.toNat < 65536)
+    (hbytes : (expect13 args.metadata P L cls t (snd13 H sp chts shts cats sats)).1.length + (expect13 args.metadata P L cls t (snd13 H sp chts shts cats sats)).2.length + 1 < 2 ^ 32)
+    (hrec : RecordsFit H P (capInfo (evs.map CEv.cap)) (sessionOf (evs.map CEv.cap) (optsOf args ports pm) p0 rest)
+      ((fileKeysOf (some (C09Found.fileText ls))).getD []))
+    (hus : ∀ e ∈ evs.map CEv.cap, e.us < 2 ^ 64)
+    (hothers : ∀ blk, Pipeline.connOut H P (capInfo (evs.map CEv.cap))
+        (sessionOf (evs.map CEv.cap) (optsOf args ports pm) p0 rest) ((fileKeysOf (some (C09Found.fileText ls))).getD []) = some blk →
+      OthersFitC mask H P args (some (C09Found.fileText ls)) (evs.map CEv.cap) blk) :
+    ∃ f, exportFile mask H P args cv.isLegacy (some (C09Found.fileText ls)) (Spec.Containers.encode cv cevs) = .file f ∧
+      Exact f (sessionOf (evs.map CEv.cap) (optsOf args ports pm) p0 rest) (expect13 args.metadata P L cls t (snd13 H sp chts shts cats sats)).1 (expect13 args.metadata P L cls t (snd13 H sp chts shts cats sats)).2 := by
+  obtain ⟨_, _, _, _, hdelv⟩ := described_session_x fl hne evs (optsOf args ports pm) hdesc hsp hcp p0 rest hfp
+  have hconn := tls13_connection_full H hH P L ls hls (capInfo (evs.map CEv.cap))
+    (sessionOf (evs.map CEv.cap) (optsOf args ports pm) p0 rest) t hch hsh hrc hrs hv hcomp hneg haccept sp hsuite cls hcls
+    chts shts cats sats hl1 hl2 hl3 hl4 ho1 ho2 ho3 ho4 hsc hss hokc hoks hwr hlen (hdelv _ hwires) hcausal
+  exact capture_exact_glue mask H P fl hne evs args hdesc hnot1 cv cevs hcwf hitems (some (C09Found.fileText ls)) pm ports
+    hpm hports hsp hcp p0 rest hfp _ _ hconn hcport hsport hpmv hbytes hrec hus hothers
+
+/-- **C01, SSL 3.0 – TLS 1.2, from file to file, ANY options, IPv4 / IPv6 with extension headers, RFC terms.**
+    Beyond `Props.C01Rfc.tls12_capture_exact_rfc`: `-c`, `-a` (conclusion `expect12 args.metadata …`; with `-a` the
+    causality hypothesis is `Causal13`: ClientHello released first, ServerHello second), IPv6 extension headers. -/
+theorem tls12_capture_exact_full (mask : Quic.Dissect.MaskFn) (H : Crypto.Prims) (hH : H.Lawful) (P : Prims) (L : SealLaws P)
+    -- the capture file: bytes written by the independent encoder in ANY container variant, holding the described packets;
+    -- the connection's segments over IPv4 or IPv6 WITH extension headers, with `-c` carrying valid TCP checksums
+    (fl : Flow) (hne : clientEp fl ≠ serverEp fl) (evs : List CEv) (args : Args)
+    (hdesc : DescribedX fl args.checksumTest evs)
+    (hnot1 : ∀ e ∈ evs.map CEv.cap, Ingest.isMinusOne e.t = false)
+    (cv : Spec.Containers.Variant) (cevs : List Spec.Containers.Ev) (hcwf : cv.WF cevs)
+    (hitems : cevs.filterMap (Spec.Containers.scale cv) = (evs.map CEv.cap).map CapEv.item)
+    -- the options: ANY `-a`, `-c`, `-m`, `-p`; the server port is a server port, the client port is not
+    (ls : List (C09Found.FLine × Bool)) (hls : ∀ x ∈ ls, x.1.WF)
+    (pm : List (Int × Int)) (ports : List Int)
+    (hpm : Options.getPortMap Options.Src.bare args.mArg = .ok pm)
+    (hports : Options.serverPorts Options.Src.builtin Options.Src.pDefault args.pArg = .ok ports)
+    (hsp : ports.contains (fl.serverPort : Int) = true) (hcp : ports.contains (fl.clientPort : Int) = false)
+    (p0 : Pkt) (rest : List Pkt) (hfp : flowPkts fl 0 evs = p0 :: rest)
+    -- the connection as sent: hellos per RFC; the negotiated version
+    (t : Transcript) (hch : t.ch.WellFormed) (hsh : t.sh.WellFormed) (hrc : t.rvC.length = 2) (hrs : t.rvS.length = 2)
+    (hv : t.ver.length = 2) (hcomp : t.sh.compressionMethod = 0)
+    (pv : ProtocolVersion) (hneg : Negotiated t.rvS t.sh (sessVer pv))
+    -- SSL 3.0 only: the real digest sizes of MD5 and SHA-1 (the tool knows ten of RFC 6101's salts)
+    (hsz : pv = .ssl30 → H.md5.outLen = 16 ∧ H.sha1.outLen = 20)
+    -- the negotiated suite: a code point the tool supports; `sp` is what its IANA name denotes; valid for the version
+    (haccept : CipherSuite.resolve (Bytes.beNat t.sh.cipherSuite) ≠ none)
+    (sp : SuiteSpec) (hsuite : suiteOfCode (Bytes.beNat t.sh.cipherSuite) = some sp) (hvalid : ValidFor sp pv)
+    (cls : CipherClass) (hcls : cls12 pv (etmNegotiated t.sh) sp = some cls)
+    -- the master secret of the connection, and its line in the key-log file
+    (ms : Bytes) (hms : ms.length = 48)
+    (hl1 : HasLine ls labelClientRandom (Pipeline.natsOfBytes t.ch.random) (Pipeline.natsOfBytes ms))
+    (ho1 : OnlySecret ls labelClientRandom (Pipeline.natsOfBytes t.ch.random) (Pipeline.natsOfBytes ms))
+    -- what follows the hellos: clear handshake records, ChangeCipherSpec, records protected with the keys of the key block
+    (hsc : Script12 t.cEvs) (hss : Script12 t.sEvs)
+    (hokc : ∀ e ∈ t.cEvs, EvOk1 cls (sp.hash.suite H).outLen e)
+    (hoks : ∀ e ∈ t.sEvs, EvOk1 cls (sp.hash.suite H).outLen e)
+    (hwr : ∀ d, ∀ r ∈ t.records P L cls (snd12 H pv sp ms t.ch.random t.sh.random) d, WholeRecord r)
+    (hlen : t.cEvs.length + t.sEvs.length ≤ seqLimit)
+    -- the capture of the connection, sender side; causality on the released records as in the connection capstones
+    (hwires : WiresInOrder evs (t.stream P L cls (snd12 H pv sp ms t.ch.random t.sh.random)))
+    (hc12 : args.metadata = false →
+      Causal12 (connRecs (capInfo (evs.map CEv.cap)) (sessionOf (evs.map CEv.cap) (optsOf args ports pm) p0 rest)))
+    (hc13 : args.metadata = true →
+      Causal13 (connRecs (capInfo (evs.map CEv.cap)) (sessionOf (evs.map CEv.cap) (optsOf args ports pm) p0 rest)))
+    -- what the write loop needs (each CAN fail on the real tool: see the header of `Props/C01File2`)
+    (hcport : fl.clientPort < 65536) (hsport : fl.serverPort < 65536) (hpmv : ∀ kv ∈ pm, kv.2.toNat < 65536)
+    (hbytes : (expect12 args.metadata P L cls t (snd12 H pv sp ms t.ch.random t.sh.random)).1.length + (expect12 args.metadata P L cls t (snd12 H pv sp ms t.ch.random t.sh.random)).2.length + 1 < 2 ^ 32)
+    (hrec : RecordsFit H P (capInfo (evs.map CEv.cap)) (sessionOf (evs.map CEv.cap) (optsOf args ports pm) p0 rest)
+      ((fileKeysOf (some (C09Found.fileText ls))).getD []))
+    (hus : ∀ e ∈ evs.map CEv.cap, e.us < 2 ^ 64)
+    (hothers : ∀ blk, Pipeline.connOut H P (capInfo (evs.map CEv.cap))
+        (sessionOf (evs.map CEv.cap) (optsOf args ports pm) p0 rest) ((fileKeysOf (some (C09Found.fileText ls))).getD []) = some blk →
+      OthersFitC mask H P args (some (C09Found.fileText ls)) (evs.map CEv.cap) blk) :
+    ∃ f, exportFile mask H P args cv.isLegacy (some (C09Found.fileText ls)) (Spec.Containers.encode cv cevs) = .file f ∧
+      Exact f (sessionOf (evs.map CEv.cap) (optsOf args ports pm) p0 rest) (expect12 args.metadata P L cls t (snd12 H pv sp ms t.ch.random t.sh.random)).1 (expect12 args.metadata P L cls t (snd12 H pv sp ms t.ch.random t.sh.random)).2 := by
+  obtain ⟨_, _, _, _, hdelv⟩ := described_session_x fl hne evs (optsOf args ports pm) hdesc hsp hcp p0 rest hfp
+  have hconn := tls12_connection_full H hH P L ls hls (capInfo (evs.map CEv.cap))
+    (sessionOf (evs.map CEv.cap) (optsOf args ports pm) p0 rest) t hch hsh hrc hrs hv hcomp pv hneg hsz haccept sp hsuite
+    hvalid cls hcls ms hms hl1 ho1 hsc hss hokc hoks hwr hlen (hdelv _ hwires) hc12 hc13
+  exact capture_exact_glue mask H P fl hne evs args hdesc hnot1 cv cevs hcwf hitems (some (C09Found.fileText ls)) pm ports
+    hpm hports hsp hcp p0 rest hfp _ _ hconn hcport hsport hpmv hbytes hrec hus hothers
+
 end TLX.Props.C01Full
